@@ -962,6 +962,19 @@ def run_check(tier, seed):
         V.cov['lean_queries'] = lean.n
         V.cov['ranks'] = ranks
         V.cov['samples'] = [[l[:160] for l, _ in sc['ops']][:40] for sc in scen[1:4]]
+        # ---- API-level "mix" programs (checks/apigen.gen_mix_program): varn calls whose segments are listed in any order (the last
+        #      segment is not the one reaching the highest record), several nonblocking requests per wait, record variables;
+        #      record counts (every rank, after sync and after reopen) and all data against the abstract dataset specification
+        import apigen, apicmp
+        if os.path.exists(apicmp.APIDRV):
+            aexe = apicmp.build_apirun(tree, wd)
+            nmix = 80 if tier == 'thorough' else 24
+            mrng = SplitMix64(seed * 7907 + 3)
+            ml_, mt_, mix_fail, mn_ = apicmp.run_programs(
+                V, aexe, wd, ((apigen.gen_mix_program(mrng, 'c03_m%d.nc' % k_, n_, focus=('recvarn' if k_ % 2 == 0 else None)), n_) for k_ in range(nmix) for n_ in [mrng.choice([1, 2, 2, 3])]),
+                tier, 'C03:api-mix', 'record count or data left in the file by a varn / multi-request program differs from the dataset specification', tagprefix='mix')
+            V.cov['evaluations'] += ml_
+            V.cov['mix_programs'] = dict(programs=mn_, result_lines=ml_, tags=mt_)
         nfail = 0
         for sig, sc, where, detail in prop_fail:
             if V.failing_input('C03:' + sig, 'a file the library left behind does not conform (%s): %s' % (sig, detail[:300]),
